@@ -1,2 +1,205 @@
-From PK Require Import Persist.Model Persist.Cases.
-Theorem c05_placeholder : True. Proof. exact I. Qed.
+(* C05 - stored objects come back exactly as stored (client, wire, engine, SQLite): property theorems.
+   Model: theories/Persist/Model.v (tied to /repo by translate/gen_sqltypes.py (T) and harness/c05.py (K)). *)
+From Coq Require Import ZArith List Bool.
+From PKGen Require Import PieColumns.
+From PK Require Import Persist.Model Persist.DecoratorProofs Persist.ChainProofs Persist.StoreProofs Persist.AttrProofs.
+Import ListNotations.
+Open Scope Z_scope.
+
+(* ---------------------------------------------------------------- type decorators *)
+Theorem sql_enum_roundtrip : forall o, enum_ok o -> sql_enum_in (sql_enum_out o) = o.
+Proof. exact sql_enum_roundtrip_l. Qed.
+Print Assumptions sql_enum_roundtrip.
+Example sql_enum_roundtrip_sat : enum_ok (Some 2147483648) /\ enum_ok None. Proof. split; intro H; discriminate H. Qed.
+
+(* the hypothesis is needed (a value equal to the sentinel would read back as NULL) and every stored enumeration meets it *)
+Theorem sql_enum_sentinel_refuted : exists o, sql_enum_in (sql_enum_out o) <> o.
+Proof. exists (Some enum_null). vm_compute. intro H. discriminate H. Qed.
+Theorem stored_enum_members_ok : forall cls ms v, In (cls, ms) stored_enum_members -> In v ms -> enum_ok (Some v).
+Proof. exact stored_member_ok. Qed.
+Print Assumptions stored_enum_members_ok.
+
+Theorem sql_mask_roundtrip : forall l, Forall (fun x => In x mask_bits) l ->
+  sql_mask_in (sql_mask_out l) = canon_mask l /\ NoDup (canon_mask l) /\ (forall b, In b (canon_mask l) <-> In b l).
+Proof.
+  intros l H. split; [apply sql_mask_roundtrip_l; exact H|]. split; [apply canon_mask_nodup|].
+  intro b. apply canon_mask_same_set. exact H.
+Qed.
+Print Assumptions sql_mask_roundtrip.
+Example sql_mask_roundtrip_sat : Forall (fun x => In x mask_bits) [8; 4; 8; 8388608] /\ sql_mask_in (sql_mask_out [8; 4; 8; 8388608]) = [4; 8; 8388608].
+Proof. split; [repeat constructor; simpl; tauto|vm_compute; reflexivity]. Qed.
+
+Theorem sql_mask_int_roundtrip : forall z, mask_defined z -> sql_mask_out (sql_mask_in z) = z.
+Proof.
+  intros z H. unfold sql_mask_in. destruct (z =? 0) eqn:E; [apply Z.eqb_eq in E; subst; reflexivity|].
+  apply mask_int_roundtrip. exact H.
+Qed.
+Print Assumptions sql_mask_int_roundtrip.
+
+(* ---------------------------------------------------------------- key wrapping data *)
+Definition kwd_roundtrip_statement : Prop := forall w k, kwd_flatten w = Ok k -> kwd_unflatten k = Ok w.
+
+Theorem kwd_roundtrip_refuted : exists w k, kwd_flatten w = Ok k /\ kwd_unflatten k <> Ok w.     (* known finding C05-kwd-falsy-only-parameters *)
+Proof. exact kwd_roundtrip_refuted_l. Qed.
+Print Assumptions kwd_roundtrip_refuted.
+
+Theorem kwd_roundtrip_partial : forall w, kwd_no_falsy_only w -> exists k, kwd_flatten w = Ok k /\ kwd_unflatten k = Ok w.
+Proof. exact kwd_roundtrip_l. Qed.
+Print Assumptions kwd_roundtrip_partial.
+
+Definition kwd_full : option kwd :=
+  Some (mkKW 1 (Some (mkKI [55] (Some (mkCP (Some 1) None None None None None (Some false) (Some 0) None None None None None))))
+             (Some (mkKI [] (Some (mkCP None None (Some 6) None None None None None (Some 16) None None None None)))) (Some []) None (Some 1)).
+Example kwd_roundtrip_sat : kwd_no_falsy_only kwd_full.
+Proof. simpl. split; eexists; split; reflexivity. Qed.
+
+Theorem kwd_sql_roundtrip : forall k, kc_enums_ok k -> kc_map sql_enum_in (kc_map sql_enum_out k) = k.
+Proof. exact kc_sql_roundtrip. Qed.
+Print Assumptions kwd_sql_roundtrip.
+
+(* ---------------------------------------------------------------- ObjectFactory.convert, every object type *)
+Theorem convert_roundtrip : forall s p, wf_secret s -> core_to_pie s = Ok p -> pie_to_core p = Ok s.
+Proof. exact convert_roundtrip_l. Qed.
+Print Assumptions convert_roundtrip.
+
+Definition ex_key : secret := SKey CSym (mkKB KFT_RAW [1; 2] (Some 3) (Some 16) None).
+Definition ex_wrapped : secret := SKey CPriv (mkKB KFT_PKCS_8 [] (Some 4) (Some 2048) kwd_full).
+Definition ex_split : secret := SSplit (mkKB KFT_RAW [9] (Some 3) (Some 128) None) (mkSP 3 1 2 1 (Some 9223372036854775807)).
+Example convert_roundtrip_sat :
+  wf_secret ex_key /\ wf_secret ex_wrapped /\ wf_secret ex_split /\
+  (exists p, core_to_pie ex_key = Ok p) /\ (exists p, core_to_pie ex_wrapped = Ok p) /\ (exists p, core_to_pie ex_split = Ok p).
+Proof.
+  split; [exact I|]. split; [apply kwd_roundtrip_sat|]. split; [exact I|].
+  split; [eexists; vm_compute; reflexivity|]. split; eexists; vm_compute; reflexivity.
+Qed.
+
+(* ---------------------------------------------------------------- Register then Get *)
+Definition get_after_register_statement : Prop := forall v o n s l st st' u,
+  store_ok st -> srv_register v o n s l st = Ok (st', u) -> srv_get st' u = Ok s.
+
+Theorem get_after_register_refuted :                 (* known finding C05-kwd-falsy-only-parameters, end to end *)
+  exists v o n s l st' u, srv_register v o n s l store0 = Ok (st', u) /\ srv_get st' u <> Ok s.
+Proof.
+  exists (1, 4), [97], 1600000000, (SKey CSym (mkKB KFT_RAW [1; 2] (Some 3) (Some 16) kwd_witness)), []. eexists. eexists.
+  split; [vm_compute; reflexivity|]. vm_compute. intro H. discriminate H.
+Qed.
+Print Assumptions get_after_register_refuted.
+
+Theorem get_after_register_refuted_secret_data :     (* known finding C05-secret-data-key-block *)
+  exists v o n s l st' u, srv_register v o n s l store0 = Ok (st', u) /\ srv_get st' u <> Ok s.
+Proof.
+  exists (1, 4), [97], 1600000000, (SSecret 1 (mkKB KFT_RAW [112; 119] None None None)), []. eexists. eexists.
+  split; [vm_compute; reflexivity|]. vm_compute. intro H. discriminate H.
+Qed.
+Print Assumptions get_after_register_refuted_secret_data.
+
+Theorem get_after_register_partial : forall v o n s l st st' u,
+  store_ok st -> wf_secret s -> enums_ok s -> len_attr_consistent s l ->
+  srv_register v o n s l st = Ok (st', u) -> srv_get st' u = Ok s.
+Proof. exact get_after_register_l. Qed.
+Print Assumptions get_after_register_partial.
+
+Definition ex_attrs : list tattr :=
+  [mkTA (Some 0) (TName [110; 49] NT_TEXT); mkTA None (TMask 12); mkTA (Some 1) (TName [110; 50] NT_TEXT); mkTA (Some 0) (TGroup [103]);
+   mkTA None (TSens true); mkTA (Some 0) (TAsi [97] [98]); mkTA None (TLen 2048)].
+Example get_after_register_sat :
+  store_ok store0 /\ wf_secret ex_wrapped /\ enums_ok ex_wrapped /\ len_attr_consistent ex_wrapped ex_attrs /\
+  exists st' u, srv_register (1, 4) [97] 1600000000 ex_wrapped ex_attrs store0 = Ok (st', u).
+Proof.
+  split; [apply store0_ok|]. split; [apply kwd_roundtrip_sat|].
+  split; [vm_compute; repeat split; intro H; discriminate H|]. split; [right; reflexivity|].
+  eexists. eexists. vm_compute. reflexivity.
+Qed.
+
+(* at any later point of any history (other registrations, reads, activations - also of the object itself -, destructions of
+   other objects) and across any number of engine restarts on the same file: by induction over histories *)
+Theorem get_at_any_later_point : forall v o n s l st st' u h,
+  store_ok st -> wf_secret s -> enums_ok s -> len_attr_consistent s l ->
+  srv_register v o n s l st = Ok (st', u) ->
+  Forall (not_destroying u) h ->
+  srv_get (run st' h) u = Ok s.
+Proof. exact get_at_any_later_point_l. Qed.
+Print Assumptions get_at_any_later_point.
+
+Theorem any_reachable_store_ok : forall h, store_ok (run store0 h).
+Proof. intro h. apply run_store_ok. apply store0_ok. Qed.
+Print Assumptions any_reachable_store_ok.
+
+Theorem restart_persists : forall st u, srv_get (step st HRestart) u = srv_get st u /\ (forall v, srv_attrs v (step st HRestart) u = srv_attrs v st u).
+Proof. intros st u. split; reflexivity. Qed.
+Print Assumptions restart_persists.
+
+Example history_sat :
+  Forall (not_destroying 1) [HRead; HRegister (2, 0) [98] 5 ex_key []; HActivate 1; HRestart; HDestroy 2; HRestart; HRead].
+Proof. repeat constructor; simpl; discriminate. Qed.
+
+(* ---------------------------------------------------------------- GetAttributes = supplied + server-assigned *)
+Definition attrs_after_register_statement : Prop := forall v o n s l st st' u v',
+  store_ok st -> srv_register v o n s l st = Ok (st', u) ->
+  get_attributes v' st' u = Ok (expected_attrs v' u n ST_PRE_ACTIVE s l).
+
+Theorem attrs_after_register_refuted :               (* known finding C05-name-type-not-stored *)
+  exists v o n s l st' u v', srv_register v o n s l store0 = Ok (st', u) /\
+                             get_attributes v' st' u <> Ok (expected_attrs v' u n ST_PRE_ACTIVE s l).
+Proof.
+  exists (1, 2), [97], 1600000000, ex_key, [mkTA (Some 0) (TName [110] NT_URI)]. eexists. eexists. exists (1, 2).
+  split; [vm_compute; reflexivity|]. vm_compute. intro H. discriminate H.
+Qed.
+Print Assumptions attrs_after_register_refuted.
+
+Theorem attrs_after_register_refuted_cert20 :        (* known finding C05-certificate-type-kmip20-client *)
+  exists v o n s l st' u, srv_register v o n s l store0 = Ok (st', u) /\ get_attributes (2, 0) st' u = Err.
+Proof.
+  exists (1, 2), [97], 1600000000, (SCert CT_X_509 [48; 0]), []. eexists. eexists.
+  split; vm_compute; reflexivity.
+Qed.
+Print Assumptions attrs_after_register_refuted_cert20.
+
+(* server side, every version, every object type *)
+Theorem attrs_after_register_partial : forall v o n s l st st' u v',
+  store_ok st -> enums_ok s -> len_attr_consistent s l -> names_untyped l -> mask_attr_defined l ->
+  srv_register v o n s l st = Ok (st', u) ->
+  srv_attrs v' st' u = Ok (expected_attrs v' u n ST_PRE_ACTIVE s l).
+Proof. exact attrs_after_register_l. Qed.
+Print Assumptions attrs_after_register_partial.
+
+(* through the client: everything but a certificate read under KMIP 2.0 *)
+Definition attrs_readable (v' : ver) (s : secret) : Prop := ver_ge v' (2, 0) = false \/ secret_class s <> CCert.
+Theorem attrs_through_client_partial : forall v o n s l st st' u v',
+  store_ok st -> enums_ok s -> len_attr_consistent s l -> names_untyped l -> mask_attr_defined l -> attrs_readable v' s ->
+  srv_register v o n s l st = Ok (st', u) ->
+  get_attributes v' st' u = Ok (expected_attrs v' u n ST_PRE_ACTIVE s l).
+Proof.
+  intros v o n s l st st' u v' F He Hl Hn Hm Hr H. unfold get_attributes.
+  rewrite (attrs_after_register_l _ _ _ _ _ _ _ _ v' F He Hl Hn Hm H). simpl. unfold client_attrs.
+  destruct Hr as [Hr|Hr]; [rewrite Hr; reflexivity|].
+  replace (existsb (fun x : rattr => Nat.eqb (fst (fst x)) A_CTYPE) (expected_attrs v' u n ST_PRE_ACTIVE s l)) with false;
+    [rewrite andb_false_r; reflexivity|].
+  symmetry. apply not_true_is_false. intro X. apply existsb_exists in X. destruct X as [x [Hin Hx]].
+  unfold expected_attrs in Hin.
+  repeat (apply in_app_or in Hin; destruct Hin as [Hin|Hin]);
+    try (match type of Hin with In _ (if ?b then _ else _) => destruct b; [|contradiction Hin] end).
+  all: try (simpl in Hin; repeat (destruct Hin as [Hin|Hin]; [subst x; discriminate Hx|]); try contradiction Hin).
+  all: try (destruct s; simpl in Hin; try contradiction Hin; try (exfalso; apply Hr; reflexivity);
+            repeat (destruct Hin as [Hin|Hin]; [subst x; discriminate Hx|]); try contradiction Hin).
+  all: try (match type of Hin with In _ (indexed ?a ?i ?f ?l) =>
+              revert Hin; generalize i; induction l as [|y l' IHl]; intros i0 Hin; simpl in Hin;
+              [contradiction Hin|destruct Hin as [Hin|Hin]; [subst x; discriminate Hx|exact (IHl _ Hin)]] end).
+Qed.
+Print Assumptions attrs_through_client_partial.
+
+Example attrs_after_register_sat :
+  enums_ok ex_wrapped /\ names_untyped ex_attrs /\ mask_attr_defined ex_attrs /\ attrs_readable (2, 0) ex_wrapped.
+Proof.
+  split; [vm_compute; repeat split; intro H; discriminate H|]. split; [repeat constructor|].
+  split; [exists [4; 8]; split; [repeat constructor; simpl; tauto|reflexivity]|right; discriminate].
+Qed.
+
+(* not proved: the attribute set at any later point of any history (the frame argument of get_at_any_later_point carries over,
+   with State following Activate); checked on every history by the correspondence run instead *)
+Definition attrs_at_any_later_point_statement : Prop := forall v o n s l st st' u h v',
+  store_ok st -> enums_ok s -> len_attr_consistent s l -> names_untyped l -> mask_attr_defined l ->
+  srv_register v o n s l st = Ok (st', u) -> Forall (not_destroying u) h ->
+  srv_attrs v' (run st' h) u =
+  Ok (expected_attrs v' u n (if existsb (fun x => match x with HActivate u' => (u' =? u) && is_crypto (secret_class s) | _ => false end) h
+                             then ST_ACTIVE else ST_PRE_ACTIVE) s l).
